@@ -1,7 +1,8 @@
 #!/bin/bash
 # tools/fuzz.sh setup            unpack both offline cargo registry caches into /verif/vendor (git-ignored)
 # tools/fuzz.sh build [target]   cargo +nightly fuzz build (ASan, debug assertions) against /repo's working tree
-# tools/fuzz.sh run <target> [runs] [seed]   run a target of fuzz/targets.tsv for a fixed number of executions (default: the table's)
+# tools/fuzz.sh run <target> [runs] [seed]   run a target of fuzz/targets.tsv for a fixed number of executions (default: the table's),
+#                                           or until VERIF_FUZZ_MAX_SECONDS (default 480) have passed, whichever comes first
 # A crash artifact (fuzz/artifacts/<target>/crash-*) is the raw case bytes: replay with
 #   ./check <ID> --replay <file made by tools/fuzz.sh replayfile <target> <artifact>>
 set -eu
@@ -54,7 +55,7 @@ for f in glob.glob(f"{root}/replays/{pid}/*.json"):
             b=bytes([len(b)])+b+s
         open(f"{root}/fuzz/corpus/{t}/seed-{os.path.basename(f)}","wb").write(b)
 PY
-    ASAN_OPTIONS="detect_leaks=0${ASAN_OPTIONS:+:$ASAN_OPTIONS}" VERIF_ROOT="$ROOT" RUSTFLAGS="--cfg metrics_verif" cargo +nightly fuzz run --fuzz-dir "$ROOT/fuzz" "$t" -- -runs="$runs" -seed="$seed" -len_control=0 -max_len="$maxlen" -detect_leaks=0 -print_final_stats=1
+    ASAN_OPTIONS="detect_leaks=0${ASAN_OPTIONS:+:$ASAN_OPTIONS}" VERIF_ROOT="$ROOT" RUSTFLAGS="--cfg metrics_verif" cargo +nightly fuzz run --fuzz-dir "$ROOT/fuzz" "$t" -- -runs="$runs" -max_total_time="${VERIF_FUZZ_MAX_SECONDS:-480}" -seed="$seed" -len_control=0 -max_len="$maxlen" -detect_leaks=0 -print_final_stats=1
     ;;
   replayfile)
     t="$1"; art="$2"
